@@ -205,12 +205,14 @@ def gen_spec(rng: random.Random, S=None, A=None, E=None, kind="random", R=None, 
     tags.append("init-" + init_dtype)
     spec = dict(smins=smins, smaxs=smaxs, amins=amins, amaxs=amaxs, emins=emins, emaxs=emaxs, nxt=nxt, rew=rew, prob=prob,
                 init=init_list, init_dtype=init_dtype,
+                # how the problem class obtains its methods: defined in its own body, inherited from a parent class, or through a mixin
+                via=rng.choice(["own", "own", "variant", "mixin"]),
                 initpol=[rng.randrange(A) for _ in range(S)] if initpol else None,
                 prob_as_array=prob_as_array, rew_dtype=rew_dtype)
     spec["_tags"] = tags + [f"S{S}", f"A{A}", f"E{E}", f"sdim{len(smins)}", f"adim{len(amins)}", f"edim{len(emins)}",
                             "zero-in-box" if all(a <= 0 <= b for a, b in zip(smins, smaxs)) else "zero-outside-box",
                             "init" if init else "noinit", "initpol" if initpol else "noinitpol", f"R{R}",
-                            "parr" if prob_as_array else "pscalar"]
+                            "parr" if prob_as_array else "pscalar", "class-" + spec["via"]]
     return spec
 
 
